@@ -5,6 +5,7 @@ import (
 	"context"
 	"errors"
 	"fmt"
+	"io"
 	"net"
 	"os"
 	"testing"
@@ -31,22 +32,25 @@ type setOp struct {
 
 type readOp struct {
 	SleepNs int64 `json:"sleepNs"`
+	Zero    bool  `json:"zero,omitempty"` // read into a zero-length slice (buffer, udp, vnet kinds)
 }
 
 type writeOp struct {
 	SleepNs int64 `json:"sleepNs"`
 	Len     int   `json:"len"`
+	Foreign bool  `json:"foreign,omitempty"` // vnetdial: sent by a third party (a connected socket discards it)
 }
 
 type scenario struct {
-	Conn   string    `json:"conn"` // buffer | dpipe | udp | vnet | bridge
+	Conn   string    `json:"conn"` // buffer | dpipe | udp | vnet | bridge | vnetdial (a connected vnet socket)
+	CloseThen bool   `json:"closeThen,omitempty"` // buffer, udp: at the end the deadline is set to the past, the connection closed, the deadline cleared: reads must not time out any more
 	Sets   []setOp   `json:"sets"`
 	Sets2  []setOp   `json:"sets2,omitempty"` // a second worker setting deadlines concurrently
 	Reads  []readOp  `json:"reads"`
 	Writes []writeOp `json:"writes"`
 }
 
-var kinds = []string{"buffer", "dpipe", "udp", "vnet", "bridge"}
+var kinds = []string{"buffer", "dpipe", "udp", "vnet", "bridge", "vnetdial"}
 
 var durs = []int64{1000, 100000, 1000000, 5000000, 20000000}
 
@@ -105,12 +109,14 @@ func gen(r *harn.Rng, tier string) interface{} {
 			sc.Sets2 = append(sc.Sets2, op)
 		}
 	}
+	zeroOK := sc.Conn == "buffer" || sc.Conn == "udp" || sc.Conn == "vnet" || sc.Conn == "vnetdial"
 	for i, n := 0, r.Range(1, 5); i < n; i++ {
-		sc.Reads = append(sc.Reads, readOp{SleepNs: sl()})
+		sc.Reads = append(sc.Reads, readOp{SleepNs: sl(), Zero: zeroOK && r.Bool(0.1)})
 	}
 	for i, n := 0, r.Range(0, 3); i < n; i++ {
-		sc.Writes = append(sc.Writes, writeOp{SleepNs: sl(), Len: r.Pick(4, 100, 1000)})
+		sc.Writes = append(sc.Writes, writeOp{SleepNs: sl(), Len: r.Pick(4, 100, 1000), Foreign: sc.Conn == "vnetdial" && r.Bool(0.5)})
 	}
+	sc.CloseThen = (sc.Conn == "buffer" || sc.Conn == "udp") && r.Bool(0.3)
 	return sc
 }
 
@@ -120,6 +126,8 @@ type conn struct {
 	setRead     func(t time.Time) error
 	setBoth     func(t time.Time) error
 	write       func(b []byte) error // makes one datagram arrive at the reading side
+	writeForeign func(b []byte) error // vnetdial: a datagram from a third party
+	closeRead   func()               // closes the reading side
 	teardown    func()
 	background  []*simrt.Handle
 }
@@ -139,7 +147,7 @@ func open(env *simrt.Env, kind string) *conn {
 		return &conn{
 			read: b.Read, setRead: b.SetReadDeadline, setBoth: b.SetReadDeadline,
 			write:    func(p []byte) error { _, err := b.Write(p); return err },
-			teardown: func() { _ = b.Close() },
+			teardown: func() { _ = b.Close() }, closeRead: func() { _ = b.Close() },
 		}
 	case "dpipe":
 		a, b := dpipe.Pipe()
@@ -177,9 +185,9 @@ func open(env *simrt.Env, kind string) *conn {
 		return &conn{
 			read: c.Read, setRead: c.SetReadDeadline, setBoth: c.SetDeadline,
 			write:    func(p []byte) error { _, err := peer.WriteTo(p, l.Addr()); return err },
-			teardown: func() { _ = c.Close(); _ = l.Close(); _ = peer.Close() },
+			teardown: func() { _ = c.Close(); _ = l.Close(); _ = peer.Close() }, closeRead: func() { _ = c.Close() },
 		}
-	case "vnet":
+	case "vnet", "vnetdial":
 		lf := logging.NewDefaultLoggerFactory()
 		lf.DefaultLogLevel = logging.LogLevelDisabled
 		wan, err := vnet.NewRouter(&vnet.RouterConfig{CIDR: "10.0.0.0/24", LoggerFactory: lf})
@@ -203,10 +211,30 @@ func open(env *simrt.Env, kind string) *conn {
 		if n1 == nil || n2 == nil {
 			return nil
 		}
-		c1, err1 := n1.ListenUDP("udp", &net.UDPAddr{IP: net.ParseIP("10.0.0.1"), Port: 4000})
+		var c1 interface {
+			Read([]byte) (int, error)
+			SetReadDeadline(time.Time) error
+			SetDeadline(time.Time) error
+			Close() error
+		}
+		var err1 error
+		if kind == "vnetdial" {
+			c1, err1 = n1.DialUDP("udp", &net.UDPAddr{IP: net.ParseIP("10.0.0.1"), Port: 4000}, &net.UDPAddr{IP: net.ParseIP("10.0.0.2"), Port: 4000})
+		} else {
+			c1, err1 = n1.ListenUDP("udp", &net.UDPAddr{IP: net.ParseIP("10.0.0.1"), Port: 4000})
+		}
 		c2, err2 := n2.ListenUDP("udp", &net.UDPAddr{IP: net.ParseIP("10.0.0.2"), Port: 4000})
 		if err1 != nil || err2 != nil {
 			env.Infra("ListenUDP: %v %v", err1, err2)
+			return nil
+		}
+		n3 := mk("10.0.0.3")
+		if n3 == nil {
+			return nil
+		}
+		c3, err3 := n3.ListenUDP("udp", &net.UDPAddr{IP: net.ParseIP("10.0.0.3"), Port: 4000})
+		if err3 != nil {
+			env.Infra("ListenUDP: %v", err3)
 			return nil
 		}
 		if err := wan.Start(); err != nil {
@@ -219,7 +247,11 @@ func open(env *simrt.Env, kind string) *conn {
 				_, err := c2.WriteTo(p, &net.UDPAddr{IP: net.ParseIP("10.0.0.1"), Port: 4000})
 				return err
 			},
-			teardown: func() { _ = c1.Close(); _ = c2.Close(); _ = wan.Stop() },
+			writeForeign: func(p []byte) error {
+				_, err := c3.WriteTo(p, &net.UDPAddr{IP: net.ParseIP("10.0.0.1"), Port: 4000})
+				return err
+			},
+			teardown: func() { _ = c1.Close(); _ = c2.Close(); _ = c3.Close(); _ = wan.Stop() },
 		}
 	case "bridge":
 		br := bridge.NewBridge()
@@ -260,6 +292,7 @@ type readRec struct {
 	n          int
 	err        error
 	done       bool
+	cut        bool // zero-length slice: the datagram was consumed and reported with a short-buffer error
 }
 
 func run(env *simrt.Env, sci interface{}) {
@@ -322,8 +355,15 @@ func run(env *simrt.Env, sci interface{}) {
 			env.Sleep(time.Duration(o.SleepNs))
 			r := &readRec{tInv: env.Now(), inv: env.Stamp()}
 			reads[i] = r
+			rb := buf
+			if o.Zero {
+				rb = buf[:0]
+			}
 			env.Enter("Read")
-			r.n, r.err = c.read(buf)
+			r.n, r.err = c.read(rb)
+			if o.Zero && r.n == 0 && errors.Is(r.err, io.ErrShortBuffer) {
+				r.err, r.cut = nil, true // a datagram was consumed; none of its bytes fit
+			}
 			env.Leave()
 			r.tRet = env.Now()
 			r.ret = env.Stamp()
@@ -333,7 +373,11 @@ func run(env *simrt.Env, sci interface{}) {
 	hs = append(hs, env.Go("writer", func() {
 		for _, o := range sc.Writes {
 			env.Sleep(time.Duration(o.SleepNs))
-			if err := c.write(harn.Bytes(uint64(o.Len), o.Len)); err != nil {
+			w := c.write
+			if o.Foreign && c.writeForeign != nil {
+				w = c.writeForeign
+			}
+			if err := w(harn.Bytes(uint64(o.Len), o.Len)); err != nil {
 				env.Fail("C10/write-error", "%s: write failed: %v", sc.Conn, err)
 				return
 			}
@@ -459,14 +503,19 @@ func run(env *simrt.Env, sci interface{}) {
 		// the read returned data (or a non-timeout error)
 		if r.err == nil {
 			env.Probe("data")
-			okLen := false
+			okLen := r.cut
+			nWrites := 0
 			for _, o := range sc.Writes {
+				if o.Foreign {
+					continue // a connected socket never surfaces what a third party sent
+				}
+				nWrites++
 				if o.Len == r.n {
 					okLen = true
 				}
 			}
 			nData++
-			if !okLen || nData > len(sc.Writes) {
+			if !okLen || nData > nWrites {
 				env.Fail("C10/read-without-data", "%s: read #%d [%s, %s] returned (%d, nil) although no such datagram was waiting (%d reads have succeeded, %d datagrams were written): a read is released by data or by a timeout error, nothing else", sc.Conn, i, rel(r.tInv), rel(r.tRet), r.n, nData, len(sc.Writes))
 				return
 			}
@@ -484,6 +533,19 @@ func run(env *simrt.Env, sci interface{}) {
 		}
 	}
 	_ = c.setRead(env.Now().Add(-time.Hour)) // release a reader that is still waiting
+	if sc.CloseThen && c.closeRead != nil {
+		env.Join(readerH)
+		// the deadline has passed; the connection is closed; the deadline is cleared again: a read
+		// now reports buffered data or the end of the connection, not a timeout any more
+		c.closeRead()
+		_ = c.setRead(time.Time{})
+		_, err := c.read(make([]byte, 2048))
+		if isTimeout(err) {
+			env.Fail("C10/spurious-timeout", "%s: after Close the read deadline was set to zero, yet Read still fails with a timeout (%v)", sc.Conn, err)
+			return
+		}
+		env.Probe("deadline-cleared-after-close")
+	}
 	c.teardown()
 	env.Join(readerH)
 	env.Join(c.background...)
